@@ -94,7 +94,7 @@ impl Property for C05 {
     fn components_stubbed(&self) -> Vec<&'static str> { vec!["TCP -> SimStream, one command per read", "the oracle twin executes plain commands through ShardedActorState::execute on a second state (it has no transaction logic of its own)"] }
     fn assumptions(&self) -> Vec<&'static str> { vec!["'value of a watched key' = type and content, not TTL", "nested MULTI and WATCH inside MULTI answer an error without aborting the transaction (Redis behaviour)", "SPOP not generated"] }
     fn required_probes(&self) -> Vec<&'static str> { vec!["foreign_write_between_watch_and_exec", "exec_applied", "exec_aborted_by_watch", "execabort", "discard", "overlapping_exec"] }
-    fn runs(&self, tier: Tier) -> u64 { match tier { Tier::Quick => 2500, Tier::Thorough => 120_000 } }
+    fn runs(&self, tier: Tier) -> u64 { match tier { Tier::Quick => 150000, Tier::Thorough => 3000000 } }
 
     fn run(&self, src: &mut Src, ctx: &RunCtx) -> RunReport {
         let mut rep = RunReport::default();
@@ -213,7 +213,7 @@ impl Property for C05 {
                         let changed: Vec<&(Vec<u8>, Option<String>)> = watched.iter().filter(|(k, v)| cur.get(k).cloned() != *v).collect();
                         let body = std::mem::take(&mut queued);
                         // a watched key that had already changed before EXEC was sent must abort it, whatever runs concurrently
-                        if !dirty && !changed.is_empty() && ra != R::Arr(None) {
+                        if overlapped.is_none() && !dirty && !changed.is_empty() && ra != R::Arr(None) {
                             let (k, v) = changed[0];
                             let nonstring = !v.as_deref().map(|s| s.starts_with("string ")).unwrap_or(true) || !cur.get(k).map(|s| s.starts_with("string ")).unwrap_or(true);
                             let key = if nonstring { "C05/watch/non-string-key-change-not-detected" } else { "C05/watch/change-not-detected" };
@@ -241,7 +241,9 @@ impl Property for C05 {
                                 }
                             }
                             let Some(pos) = strong else {
-                                let key = if weak { "C05/exec/not-isolated" } else { "C05/exec/overlap-unexplained" };
+                                // a watched non-string key that had changed before EXEC: the recorded WATCH finding, not an isolation question
+                                let nonstring_changed = changed.iter().any(|(k, v)| !v.as_deref().map(|s| s.starts_with("string ")).unwrap_or(true) || !cur.get(k).map(|s| s.starts_with("string ")).unwrap_or(true));
+                                let key = if nonstring_changed && ra != R::Arr(None) { "C05/watch/non-string-key-change-not-detected" } else if weak { "C05/exec/not-isolated" } else { "C05/exec/overlap-unexplained" };
                                 o.viol = Some((key.into(), format!("EXEC of {:?} with {} in flight: EXEC -> {}, foreign -> {}; no placement of the foreign command before or after the whole transaction explains replies and final state{}", body.iter().map(|c| show_cmd(c)).collect::<Vec<_>>(), show_cmd(&oc), ra.show(), rb.show(), if weak { " (placing it between two queued commands does)" } else { "" })));
                                 return o;
                             };
